@@ -36,6 +36,10 @@ Lemma tie_UpdateSignal : In f_sig_UpdateSignal
     "o.signalsMutex.RLock ; o.replyEvent ; o.signalsMutex.RUnlock ; o.removeSignalUser" ].
 Proof. cbv; auto. Qed.
 
+(* UpdateSignal's delivery loop visits every entry of its snapshot, whatever a send returned: no return, goto
+   or break inside a loop of the function (SignalsRaw.emit_go goes on after a failed write) *)
+Lemma tie_UpdateSignal_visits_all : f_sig_UpdateSignal_loop_exits = 0%nat. Proof. reflexivity. Qed.
+
 (* replyEvent: Event frame, action = signal id, message id = id of the register call *)
 Lemma tie_replyEvent : f_sig_replyEvent_text =
   "func (o *signalHandler) replyEvent(user *signalUser, signal uint32, value []byte) error { hdr := o.newHeader(net.Event, signal, user.messageID) msg := net.NewMessage(hdr, value) o.trace(&msg) return user.context.Send(&msg) }".
